@@ -1,6 +1,6 @@
 (* C05 — sort: stable ordered permutation, the same under every buffersize.
-   (mergesort = sort of cat, pass/cache invariance: see the SortView machine, C11/C01 files.) *)
-From Verif Require Import PyVal Rows ComparableGen AsIndicesGen Sort SortFacts.
+   mergesort = sort of the concatenation (data path of itermergesort); pass/cache invariance: SortView machine, C11/C01. *)
+From Verif Require Import PyVal Rows ComparableGen AsIndicesGen Sort SortFacts MergesortFacts.
 From Coq Require Import Permutation Sorted.
 Open Scope Z_scope.
 
@@ -35,6 +35,41 @@ Theorem C05_header_first : forall bs reverse key hdr rows out e,
   sort_model bs reverse key (hdr :: rows) = (out, e) -> exists rest, out = hdr :: rest.
 Proof. exact sort_model_header. Qed.
 
+(* mergesort(tables..., key, reverse, buffersize): each table sorted by the key (any buffersize per table), exhausted inputs
+   dropped from the shortlist, and the shortlist loop of _shortlistmergesorted as written (min / max scanned left to right,
+   the winner advanced or removed) deliver the stable sort of the concatenation - the rows of sort(cat(tables), key, reverse);
+   in particular a permutation, ordered, ties in table-then-row order.  For any number of tables of any lengths. *)
+Theorem C05_mergesort_is_sort_of_cat : forall (reverse : bool) idx (bss : list (option nat)) (tabs : list (list row)),
+  Forall (fun bs => forall b, bs = Some b -> (1 <= b)%nat) bss -> length bss = length tabs ->
+  let leb := row_leb reverse idx in
+  let sorted := map (fun p => sort_data leb (fst p) (snd p)) (combine bss tabs) in
+  let runs := filter nonempty sorted in
+  shortlist_merge (fun x best => if reverse then Some (cgt (getkey idx x) (getkey idx best))
+                                 else Some (clt (getkey idx x) (getkey idx best)))
+                  (S (total_len runs)) runs []
+  = (sort_data leb None (concat tabs), None).
+Proof. exact keyed_mergesort_is_sort_of_cat. Qed.
+
+(* presorted=True: the same loop over inputs that are sorted already *)
+Theorem C05_mergesort_presorted : forall (A : Type) (leb : A -> A -> bool),
+  (forall x y, leb x y = true \/ leb y x = true) ->
+  (forall x y z, leb x y = true -> leb y z = true -> leb x z = true) ->
+  forall cs : list (list A), Forall (StronglySorted (lebP leb)) cs ->
+  let runs := filter nonempty cs in
+  shortlist_merge (better leb) (S (total_len runs)) runs [] = (pysort leb (concat cs), None).
+Proof. exact @mergesort_presorted. Qed.
+
+(* non-vacuity at the level of the whole operator: three tables, one of them header-only, ties across tables *)
+Example C05_ex_mergesort :
+  let h := [VStr [107]; VStr [118]] in
+  mergesort_model (Some (VStr [107])) false false VNone None None
+    [[h; [VNum KInt (Fin 2); VStr [97]]; [VNum KInt (Fin 1); VStr [98]]];
+     [h];
+     [h; [VNum KInt (Fin 1); VStr [99]]; [VNone; VStr [100]]; [VNum KInt (Fin 2); VStr [101]]]]
+  = ([h; [VNone; VStr [100]]; [VNum KInt (Fin 1); VStr [98]]; [VNum KInt (Fin 1); VStr [99]];
+      [VNum KInt (Fin 2); VStr [97]]; [VNum KInt (Fin 2); VStr [101]]], None).
+Proof. vm_compute. reflexivity. Qed.
+
 (* non-vacuity: a table with duplicate keys, None and mixed types; buffersize 2 forces three chunks *)
 Example C05_ex :
   let t := [[VStr [107]; VStr [118]];
@@ -52,3 +87,5 @@ Print Assumptions C05_ordered.
 Print Assumptions C05_stable.
 Print Assumptions C05_sorted_input_unchanged.
 Print Assumptions C05_header_first.
+Print Assumptions C05_mergesort_is_sort_of_cat.
+Print Assumptions C05_mergesort_presorted.
